@@ -20,7 +20,15 @@ import (
 	"github.com/q191201771/naza/pkg/nazabytes"
 )
 
-func ParseSps(payload []byte, ctx *Context) error {
+func ParseSps(payload []byte, ctx *Context) (err error) {
+	// nazabits.BitReader在哥伦布编码恰好结束于buffer最后一个bit时会数组越界panic，
+	// sps来自对端，这里兜底，避免非法sps导致整个进程退出
+	defer func() {
+		if r := recover(); r != nil {
+			err = nazaerrors.Wrap(base.ErrAvc)
+		}
+	}()
+
 	br := nazabits.NewBitReader(payload)
 	var sps Sps
 	if err := parseSpsBasic(&br, &sps); err != nil {
